@@ -11,11 +11,11 @@ CHECKS = {
          "Held on the epochs produced: population 3..150, 25-60 consecutive epochs per scenario (a quarter of them with a store / restore in the middle), 8 fitness shapes including finite values whose sum overflows."),
  "C03": ("exploration", "runtime monitor: history-long innovation / node-id registry (control nodes of modules included) + per-generation event log of stored innovations (hook) checked online; store / restore in the middle of a run; modular start genomes (asexual reproduction)",
          "Held on the populations evolved; the sequential-only clauses are not asserted for parallel epochs; a restored population starts a new history."),
- "C04": ("exploration", "runtime monitor: reference alignment oracle over before/after snapshots of parents and child for the three crossovers, called directly and observed at the Mated hook inside real epochs (fitter parent by the fitness the evaluator assigned; matings across species)",
+ "C04": ("exploration", "runtime monitor: reference alignment oracle over before/after snapshots of parents and child for the three crossovers, called directly (also on parents extended by hand between matings) and observed at the Mated hook inside real epochs (fitter parent by the fitness the evaluator assigned; matings across species)",
          "Held on the sampled parent pairs with common ancestry (family members grown by operator histories; organisms of spawned populations in real epochs)."),
- "C05": ("exploration", "runtime monitor: per-mutator before/after relation oracle over snapshots, with empty / matching / non-matching innovation records, mutators applied in place in chains on one genome object",
+ "C05": ("exploration", "runtime monitor: per-mutator before/after relation oracle over snapshots, with empty / matching / non-matching innovation records, mutators applied in place in chains on one genome object (a copy, or the object a crossover has just handed over)",
          "Held on the sampled genomes and records; a false result of add-node / add-link is outside the statement and only counted."),
- "C06": ("exploration", "runtime monitor: snapshot equality, object-address disjointness (exported fields and the node look-up view), sibling copies and mutation-independence oracle for duplicate and spawn; modular genomes with shared module IO",
+ "C06": ("exploration", "runtime monitor: snapshot equality, object-address disjointness (exported fields and the node look-up view), sibling copies and mutation-independence oracle for duplicate and spawn; modular genomes with shared module IO and module links carrying weights, recurrence flags and traits",
          "Held on the sampled genomes (evolved, hand-built, modular)."),
  "C07": ("exploration", "runtime monitor: independent reference implementation of the NEAT compatibility formula compared with both methods on synthetic and evolved gene lists (equal and different genome ids); the measured genomes must stay unchanged",
          "Held on the sampled pairs (lists of 0..40 genes, now and then 64..4096; innovation numbers up to just below the maximal int64; each genome also against the duplicate the library makes of it); relative tolerance 1e-9 for the different summation orders."),
@@ -25,7 +25,7 @@ CHECKS = {
          "Held on the epochs produced; fitness bounded by 1e12 with at least one positive value."),
  "C10": ("exploration", "runtime monitor: independent snapshot of each sizeable species' champion at the Prepared hook, searched for in the next generation",
          "Held on the champions observed (both executors, with stolen babies and delta coding)."),
- "C11": ("exploration", "runtime monitor: expected multigraph built from the genome snapshot compared with Genesis / Phenotype() results and with every graph-view query over all ordered id pairs; re-expression after in-place changes; modules sharing IO nodes; the genome must stay unchanged",
+ "C11": ("exploration", "runtime monitor: expected multigraph built from the genome snapshot compared with Genesis / Phenotype() results and with every graph-view query over all ordered id pairs (undirected before directed questions and the reverse, directed questions asked twice); re-expression after in-place changes; modules sharing IO nodes; the genome must stay unchanged",
          "Held on the sampled genomes (<= 40 nodes; modular ones expressed twice and held across UpdatePhenotype as well) and the organisms of real epochs."),
  "C12": ("exploration", "runtime monitor: reference topological evaluation of generated DAGs (forward links may carry the recurrent label) compared with all solver paths: fresh instances, a second input vector, two solvers of one network, mixed-mode sequences with and without flush on one instance",
          "Held on the sampled DAGs (up to 8 hidden neurons; chains of 33-45; layered networks of a hundred to a few hundred neurons), weights and inputs (among them the all-zero vector, a repeated vector, a too short first attempt); tolerance 1e-9 relative for summation order."),
@@ -33,17 +33,17 @@ CHECKS = {
          "Held on the sampled networks and programs."),
  "C14": ("exploration", "runtime monitor: longest-path DP oracle and visited-mark inspection after capped / uncapped depth queries, mixed query sequences; forward links labelled recurrent; child stack limit turns non-termination into a fatal signature",
          "Held on the sampled graphs (<= 14 nodes, sparse; chains of 30-330 hidden neurons with a few shortcuts; one bare chain of more than a thousand)."),
- "C15": ("exploration", "runtime monitor: write/read round trips compared by independent snapshots (genomes incl. >500-node ones, organisms one by one and in batches, populations, solver models, experiments incl. empty trials)",
+ "C15": ("exploration", "runtime monitor: write/read round trips compared by independent snapshots (genomes incl. >500-node ones, organisms one by one and in batches, populations incl. repeated genome ids, solver models, experiments incl. empty trials and solved records without winner sizes; nodes numbered from zero)",
          "Held on the sampled artefacts; module link weights restricted to 1.0 which is all the YAML format can express; no negative zero."),
  "C16": ("exploration", "Go race detector over parallel epochs (delays injected at the Yield / ReproduceStart hooks, cold starts on new Options / Population objects, debug log level, a cancelled epoch) + population monitors + shared-list integrity + porcupine linearizability check of recorded registry histories",
          "Held on the interleavings that occurred (count in evidence); the race detector sees only accesses that happened."),
- "C17": ("exploration", "runtime monitor: serialised populations of repeated runs compared in-process (same input objects, changed copy of used options vs fresh options, after unrelated work and a GC) and across separate processes (GOGC=1, GOMAXPROCS=1); inputs must come back unmodified",
+ "C17": ("exploration", "runtime monitor: serialised populations of repeated runs compared in-process (same input objects, changed copy of used options and the used options object edited in place vs fresh options, activation list re-read from an options text for every run, after unrelated work and a GC) and across separate processes (GOGC=1, GOMAXPROCS=1); inputs must come back unmodified",
          "Held on the sampled scenarios; fitness is a deterministic function of the genome."),
- "C18": ("exploration", "runtime monitor: independent closed forms (relative 1e-12), range, monotonicity (4 ulp tolerance) over breakpoint-dense inputs; module activators incl. input immutability; registry enumerated over all 256 codes and extended at run time on factories of their own",
+ "C18": ("exploration", "runtime monitor: independent closed forms (relative 1e-12), range, monotonicity (4 ulp tolerance) over breakpoint-dense inputs; module activators incl. input immutability and results held across later activations; registry enumerated over all 256 codes and extended at run time on factories of their own",
          "Held on the sampled inputs with |x| <= 1e300 (module vectors of 1-8, now and then up to 5000 inputs); the registry part is exhaustive over type codes and looks up a corpus of about 13 000 strings around the names and codes; concurrent activation through the shared factory in several processes."),
  "C19": ("exploration", "runtime monitor: textbook definitions on sorted copies compared with Floats / Trial / Experiment aggregates over generated series (incl. large common offsets; data-relative tolerances) and synthetic experiments (aggregates re-checked after in-place reordering; returned series must stay stable)",
          "Held on the sampled series (length 0..1024, now and then 4096..100001) and experiments (also recorded trial by trial into a pre-allocated list, one record replaced in place); variance asserted for n >= 2."),
- "C20": ("fault_enumeration", "trace checker over the recorded evaluator / observer call log of real Execute runs, enumerating solved patterns, evaluator-error positions (plain, with the solved flag, deadline-like), cancellation points, pre-allocated and reused Experiment objects",
+ "C20": ("fault_enumeration", "trace checker over the recorded evaluator / observer call log of real Execute runs, enumerating solved patterns (incl. runs of zero generations), evaluator-error positions (plain, with the solved flag, deadline-like), cancellation points, pre-allocated and reused Experiment objects",
          "Exhaustive within the stated bounds (trials x generations x solved patterns x fault positions; observer and evaluator handed over in several forms, half of the observers asking the running experiment for progress reports); beyond them only a fixed list of longer runs (5-40 trials x 5-35 generations)."),
 }
 
